@@ -4,7 +4,7 @@
    SCBK parity factors).  The matrix M of the mapped number operators and their signs come from OpenFermion
    and are parameters. *)
 From Coq Require Import ZArith NArith List Bool Arith.
-From QPM Require Import Remap Reconstruct GF2 Mapper.
+From QPM Require Import Remap Reconstruct GF2 GF2Complete Mapper.
 Import ListNotations.
 
 (* inverse() returns a two-sided inverse (as maps on bit vectors) whenever the elimination ends with the
@@ -62,6 +62,44 @@ Theorem scbk_parity_factor_counts_spin_up : forall up down : nat,
   scbk_n_up (Z.of_nat (up + down)) (Z.of_nat up - Z.of_nat down) = Z.of_nat up.
 Proof. exact scbk_parity_counts_spin_up. Qed.
 Print Assumptions inverse_mapper_filters_accept_exactly_images.
+
+(* completeness of the Gauss-Jordan elimination as inverse() performs it (pivot search from the diagonal down, swap,
+   forward sweep; backward sweep with the pivot searched from the bottom): on every square matrix with trivial kernel
+   - any size - a pivot is found in every column, no row is ever added to itself, the elimination ends with the identity
+   on the left, and the result is the two-sided inverse.  With gf2_inverse_is_two_sided_inverse: inverse() returns an
+   inverse exactly on the invertible matrices. *)
+Theorem gf2_inverse_succeeds_on_every_invertible_matrix : forall M,
+  (forall r, In r M -> fits (length M) r) ->
+  (forall y, fits (length M) y -> mulv M y = 0%N -> y = 0%N) ->
+  exists B, inverse M = Some B /\ gj_check M = Some B
+    /\ forall y, fits (length M) y -> mulv B (mulv M y) = y /\ mulv M (mulv B y) = y.
+Proof. exact inverse_total. Qed.
+Print Assumptions gf2_inverse_succeeds_on_every_invertible_matrix.
+
+Theorem gf2_inverse_succeeds_whenever_a_left_inverse_exists : forall M L,
+  (forall r, In r M -> fits (length M) r) ->
+  (forall y, fits (length M) y -> mulv L (mulv M y) = y) ->
+  exists B, inverse M = Some B
+    /\ forall y, fits (length M) y -> mulv B (mulv M y) = y /\ mulv M (mulv B y) = y.
+Proof. exact inverse_total_of_left_inverse. Qed.
+
+(* hence the mapper round trips need no run of the elimination: every invertible square number-operator matrix will do *)
+Theorem mappers_round_trip_for_every_invertible_number_operator_matrix : forall n M smask,
+  length M = n -> (forall r, In r M -> fits n r) -> (forall y, fits n y -> mulv M y = 0%N -> y = 0%N) -> fits n smask ->
+  exists B, inverse M = Some B
+    /\ (forall occ, fits n occ -> inv_state_mapper n n M smask (state_mapper n B smask occ) = occ)
+    /\ (forall bits, fits n bits -> state_mapper n B smask (inv_state_mapper n n M smask bits) = bits)
+    /\ (forall occ i, fits n occ -> i < n -> number_readback M smask i (state_mapper n B smask occ) = N.testbit occ (N.of_nat i)).
+Proof.
+  intros n M smask Hn Hsq Hker Hs. subst n.
+  destruct (gj_complete M Hsq Hker) as [B HB]. exists B.
+  split. { destruct HB as [s [Hg [_ [_ Hb]]]]. unfold inverse. rewrite Hg, Hb. reflexivity. }
+  split; [|split].
+  - intros occ Ho. apply (inv_of_state (length M) (length M) M B smask); auto.
+  - intros bits Hb. apply (state_of_inv (length M) (length M) M B smask); auto.
+  - intros occ i Ho Hi. apply (number_operators_read_back (length M) (length M) M B smask); auto.
+Qed.
+Print Assumptions mappers_round_trip_for_every_invertible_number_operator_matrix.
 
 (* non-vacuity: the 4-orbital Bravyi-Kitaev number-operator matrix (rows Z0, Z0Z1, Z2, Z1Z2Z3) *)
 Example c13_example :
